@@ -22,6 +22,11 @@ import time
 VERIF = os.path.dirname(os.path.dirname(os.path.abspath(__file__)))
 REPO = os.environ.get("VERIF_REPO", "/repo")
 BUILD = os.path.join(VERIF, ".build")
+# a run pointed at another tree (VERIF_REPO=<scratch worktree>: seeded changes, experiments) gets its own build directory and
+# writes its evidence under .build/: it can run beside a check of /repo and never overwrites the committed evidence
+ALT = os.path.realpath(REPO) != "/repo"
+ALT_TAG = ("@" + hashlib.sha1(os.path.realpath(REPO).encode()).hexdigest()[:8]) if ALT else ""
+EVIDENCE = os.path.join(BUILD, "evidence" + ALT_TAG) if ALT else os.path.join(VERIF, "evidence")
 NPROC = os.cpu_count() or 4
 
 # Axioms that the standard library / installed libraries declare and that a theorem may depend on.
@@ -154,10 +159,10 @@ class Ctx:
         self.t0 = time.time()
         self.famdir = os.path.join(VERIF, "fam", family)
         self.coqdir = os.path.join(self.famdir, "coq")
-        self.bdir = os.path.join(BUILD, prop)
+        self.bdir = os.path.join(BUILD, prop + ALT_TAG)
         shutil.rmtree(self.bdir, ignore_errors=True)
         os.makedirs(self.bdir, exist_ok=True)
-        os.makedirs(os.path.join(VERIF, "evidence"), exist_ok=True)
+        os.makedirs(EVIDENCE, exist_ok=True)
         self.violations = []      # dicts: what, key, replay(obj), found(bool)
         self.broken = []          # ties / proofs that no longer check: (what, detail)
         self.dist = {}            # generator distribution counters
@@ -476,7 +481,7 @@ class Ctx:
             cov["samples"] = ["(no sample recorded)"]
         ev = {"property_id": self.prop, "tier": self.tier, "seed": self.seed, "level": self.level,
               "coverage": cov, "assumptions": self.assumptions, "wall_s": round(wall, 2), "violations": nviol}
-        with open(os.path.join(VERIF, "evidence", self.prop + ".json"), "w") as f:
+        with open(os.path.join(EVIDENCE, self.prop + ".json"), "w") as f:
             json.dump(ev, f, indent=1, default=str)
         self.log("done: %d evaluations, %d distinct non-trivial, %d/%d obligations, %d violation(s), %.1fs" % (
             self.evaluations, len(self.nontrivial), self.discharged, self.obligations, nviol, wall))
